@@ -93,16 +93,16 @@ pub fn run_case(case: &Case, prefix: Vec<u32>, profile: ChoiceProfile) -> Run {
         Cause::NoRoute => host = "unknown.io",
         Cause::Deny => {
             // a frontend without cluster = deny
-            setup.clusters.push(scen::ClusterSetup { cluster: crate::cfgspace::cluster("unused"), hostname: "unused.io".into(), path: PathRule::prefix("/"), backends: vec![] });
+            setup.clusters.push(scen::ClusterSetup { cluster: crate::cfgspace::cluster("unused"), hostname: "unused.io".into(), path: PathRule::prefix("/"), backends: vec![], headers: vec![] });
             host = "deny.io";
         }
         Cause::NoBackendConfigured => {
-            setup.clusters.push(scen::ClusterSetup { cluster: crate::cfgspace::cluster("empty"), hostname: "empty.io".into(), path: PathRule::prefix("/"), backends: vec![] });
+            setup.clusters.push(scen::ClusterSetup { cluster: crate::cfgspace::cluster("empty"), hostname: "empty.io".into(), path: PathRule::prefix("/"), backends: vec![], headers: vec![] });
             host = "empty.io";
         }
         Cause::ConnectRefused => {
             // a cluster whose only backend address has no listener
-            setup.clusters.push(scen::ClusterSetup { cluster: crate::cfgspace::cluster("dead"), hostname: "dead.io".into(), path: PathRule::prefix("/"), backends: vec![("dead1".into(), scen::addr(3, 9191))] });
+            setup.clusters.push(scen::ClusterSetup { cluster: crate::cfgspace::cluster("dead"), hostname: "dead.io".into(), path: PathRule::prefix("/"), backends: vec![("dead1".into(), scen::addr(3, 9191))], headers: vec![] });
             host = "dead.io";
         }
         _ => {}
